@@ -111,6 +111,23 @@ def main():
             if wa[2] != wb[2] or vlib.unhx(wa[1]) != exp_body or wa[4] != ("F1" if len(body) > db else "F0"):
                 db_fail.append(k)
     ck.evaluated(len(dbc)); ck.count("databytes_armed", len(dbc))
+    # ---- the 354 reply promises DATA mode: it must not be given when the queue program cannot be started (then the
+    #      client's message would be read as commands).  The real qmail-smtpd with fork() failing in that process only.
+    import smtp_common as sc
+    S = sc.Smtpd(rb)
+    cfg = dict(rcpthosts=None, badmailfrom=None, localiphost=None, databytes=0, morercpthosts=[], remoteip=b"10.0.0.9", remotehost=b"c.example", local=b"s.example", remoteinfo=None, relayclient=None)
+    S.configure(cfg)
+    sess = b"HELO c\r\nMAIL FROM:<a@b.example>\r\nRCPT TO:<u@s.example>\r\nDATA\r\nMAIL FROM:<mallory@x>\r\nRCPT TO:<victim@y>\r\nDATA\r\nforged\r\n.\r\nQUIT\r\n"
+    fk_fail = []
+    for nth in (1, 2):
+        env = vlib.shim_env(S.home, extra={"SYSSHIM_FAIL": "fork::11:%d" % nth})
+        out, rc2, subs = S.run(cfg, sess, exits=[0, 0], extra_env={k: v for k, v in env.items() if k.startswith(("LD_PRELOAD", "SYSSHIM"))})
+        codes = sc.reply_codes(out)
+        ck.evaluated(); ck.count("fork_failure_sessions"); ck.nontrivial(("forkfail", nth))
+        # after the failed start of the queue program the DATA command must be answered 451, never 354
+        k = [j for j, c in enumerate(codes) if c in (354, 451)]
+        if nth == 1 and (not k or codes[k[0]] != 451):
+            fk_fail.append(dict(kind="fault", fault="fork() fails in qmail-smtpd (EAGAIN), call %d" % nth, session=sess.decode(), replies=codes, queued=len(subs)))
     ck.cov["disagreements_checked"] = len(mism) + len(hopmis)
     ck.cov["rule"] = ("exhaustive {CR,LF,'.',x}* to the stated length, every read chunking 1..3 of streams to length 5, "
                       "streams with NUL/0xff, random terminated streams with pipelined rest, header streams for the hop counter, "
@@ -136,7 +153,9 @@ def main():
         s0, db = dbc[k]
         ck.violation("smtpd:framing-under-databytes", dict(kind="input", input_hex=vlib.hx(s0), databytes=db, observed=di[k], expected=dm[k]),
                      what="with the size limit armed the decoder frames the stream differently (bytes after the limit are not consumed up to CRLF.CRLF)")
-    anyfail = bool(fails or rt_fail or db_fail)
+    for o in fk_fail[:1]:
+        ck.violation("smtpd:354-without-queue", o, what="DATA was answered 354 although qmail-queue could not be started: the message that follows is read as SMTP commands")
+    anyfail = bool(fails or rt_fail or db_fail or fk_fail)
     if (mism or hopmis) and not anyfail:
         i = min(mism + hopmis, key=lambda i: len(cases[i][0]))
         s, c = cases[i]
